@@ -1,4 +1,5 @@
 """C11 — key re-exchange is transparent to whatever traffic is in flight."""
+import random
 import threading
 import time
 import traceback
@@ -57,10 +58,21 @@ def one_case(ctx, idx):
     kinds = sorted(set(rng.sample(pool, rng.randint(1, 3))))
     lat = rng.choice([0.005, 0.02, 0.05]) if mode == "latency" else 0.0
     senders = rng.randint(0, 2)  # extra user threads streaming data from the initiator
-    ka = rng.choice([None, None, "init", "peer"]) if mode == "gate" else None
+    ka = rng.choice([None, None, "init", "peer"]) if mode == "gate" else rng.choice([None, None, "lat-init", "lat-peer"])
+    if ka and ka.startswith("lat"):
+        lat = 0.25  # every leg of the exchange takes longer than the keepalive interval
     desc = dict(initiator=init, trigger=trigger, mode=mode, inflight=kinds, latency=lat, streamers=senders,
                 keepalive=ka)
-    p = pair.Pair(rng, client_cls=pair.WatchedTransport, server_cls=pair.WatchedTransport)
+    # schedule perturbation: a user thread that has passed the "clear to send" gate may be
+    # descheduled right before its packet is written; on correct code it still holds the
+    # gate lock there, so a key exchange cannot start in between
+    def gap(tapobj, ptype, raw, _rng=random.Random(rng.random())):
+        if ptype in (94, 95) and threading.current_thread().name.startswith("vf-init-stream") \
+                and _rng.random() < 0.3:
+            time.sleep(0.002)
+
+    p = pair.Pair(rng, client_cls=pair.WatchedTransport, server_cls=pair.WatchedTransport,
+                  on_send=dict(c=gap, s=gap))
     threads = []
     try:
         if not p.start() or not p.auth():
@@ -110,6 +122,11 @@ def one_case(ctx, idx):
             d_peer_to_init.hold()
         else:
             p.link.set_latency(lat, lat, jitter=lat / 2)
+            if ka:
+                # keepalives armed for the whole exchange: they fire from the transport
+                # thread also between its own NEWKEYS and the peer's NEWKEYS
+                T[init if ka == "lat-init" else peer].set_keepalive(0.08)
+                ctx.count("keepalive_armed_during_exchange")
 
         # ---- the peer emits connection-layer traffic ----------------------
         pc = work[pi]
@@ -210,7 +227,7 @@ def one_case(ctx, idx):
             and e["n"] >= mark for e in p.rec.snapshot()), 8)
         if trigger == "threshold":
             T[init].packetizer.REKEY_PACKETS = 1 << 29
-        if ka is not None:
+        if ka in ("init", "peer"):
             # keepalives enabled: the held link makes the exchange outlast the interval, so
             # the keepalive fires (on the transport thread) while the exchange is in progress
             T[init if ka == "init" else peer].set_keepalive(0.05)
